@@ -44,7 +44,7 @@ func TestC01DropInSweep(t *testing.T) {
 		entries = rapid.Permutation(entries).Draw(t, "registry-order")
 		live := map[string]bool{"d0": true}
 		var armed string // column the trigger callback drops at the next delete it sees
-		sweepDrops := 0
+		sweepDrops, bodyDrops := 0, 0
 		c.CreateColumn("d0", column.ForInt())
 		for _, e := range entries {
 			if e == "TRIGGER" {
@@ -192,6 +192,100 @@ func TestC01DropInSweep(t *testing.T) {
 				}
 				logf("delete %v (DropColumn(%q) lands inside the sweep)", del, drop)
 			},
+			// a transaction that writes several columns of several rows (stores and merges) while a
+			// DropColumn of one of them lands in the middle of its body: the writes queued for the dropped
+			// column vanish with it, every other write of the transaction must arrive
+			"update": func(t *rapid.T) {
+				var offs []uint32
+				for off := range rows {
+					offs = append(offs, off)
+				}
+				if len(offs) == 0 {
+					t.Skip("no rows")
+				}
+				sort.Slice(offs, func(i, j int) bool { return offs[i] < offs[j] })
+				cols := liveCols()
+				type write struct {
+					off   uint32
+					col   string
+					merge bool
+					v     int
+				}
+				n := rapid.IntRange(1, 8).Draw(t, "writes")
+				var writes []write
+				for i := 0; i < n; i++ {
+					writes = append(writes, write{off: offs[rapid.IntRange(0, len(offs)-1).Draw(t, "row")], col: rapid.SampledFrom(cols).Draw(t, "col"),
+						merge: rapid.Bool().Draw(t, "merge"), v: rapid.IntRange(1, 50).Draw(t, "v")})
+				}
+				drop, dropAt := "", -1
+				if rapid.IntRange(0, 2).Draw(t, "drop-inside-the-body") != 0 {
+					var droppable []string
+					for _, c := range cols {
+						if c != "d0" {
+							droppable = append(droppable, c)
+						}
+					}
+					if len(droppable) > 0 {
+						drop = rapid.SampledFrom(droppable).Draw(t, "drop")
+						dropAt = rapid.IntRange(0, n).Draw(t, "drop-at")
+					}
+				}
+				accessors := rapid.Bool().Draw(t, "column-accessors")
+				var done []write
+				c.Query(func(txn *column.Txn) error {
+					for i := 0; i <= n; i++ {
+						if drop != "" && i == dropAt {
+							c.DropColumn(drop)
+							live[drop] = false
+							bodyDrops++
+						}
+						if i == n || (!live[writes[i].col]) {
+							continue // after the drop the body no longer names the dropped column
+						}
+						w := writes[i]
+						done = append(done, w)
+						if accessors {
+							// txn.Int(name) at the cursor, the way the README's transactions are written
+							txn.QueryAt(w.off, func(column.Row) error { return nil })
+							col := txn.Int(w.col)
+							if w.merge {
+								col.Merge(w.v)
+							} else {
+								col.Set(w.v)
+							}
+							continue
+						}
+						txn.QueryAt(w.off, func(r column.Row) error {
+							if w.merge {
+								r.MergeInt(w.col, w.v)
+							} else {
+								r.SetInt(w.col, w.v)
+							}
+							return nil
+						})
+					}
+					return nil
+				})
+				writes = done
+				for _, w := range writes {
+					if !live[w.col] {
+						continue
+					}
+					if w.merge {
+						rows[w.off][w.col] += w.v
+					} else {
+						rows[w.off][w.col] = w.v
+					}
+				}
+				for name, ok := range live {
+					if !ok {
+						for _, r := range rows {
+							delete(r, name)
+						}
+					}
+				}
+				logf("update %v accessors=%v (DropColumn lands before write #%d)", writes, accessors, dropAt)
+			},
 			"recreate": func(t *rapid.T) {
 				var names []string
 				for n := range live {
@@ -218,6 +312,9 @@ func TestC01DropInSweep(t *testing.T) {
 		if reusedSwept {
 			labels = append(labels, "swept-offset-reused")
 		}
-		RecordCase("C01", "drop-in-sweep: "+strings.Join(trace, "; "), reusedSwept, labels...)
+		if bodyDrops > 0 {
+			labels = append(labels, "drop-inside-transaction-body")
+		}
+		RecordCase("C01", "drop-in-sweep: "+strings.Join(trace, "; "), reusedSwept || bodyDrops > 0, labels...)
 	})
 }
